@@ -86,6 +86,9 @@ class Model:
         self.t = np.asarray(time, np.float32).astype(np.float64)
         self.la = np.asarray(lat, np.float32).astype(np.float64)
         self.lo = np.asarray(lon, np.float32).astype(np.float64)
+        # the coordinates as the caller holds them (double precision)
+        self.user = (np.asarray(time, float), np.asarray(lat, float),
+                     np.asarray(lon, float))
         self.global_()
 
     def global_(self):
@@ -93,16 +96,20 @@ class Model:
         self.sm = np.ones(len(self.la), bool)
 
     def masks(self, w):
+        # bounds coincide: as given; inside/outside: at the precision of the
+        # stored (single precision) coordinates, so that a bound placed on a
+        # sample's coordinate includes that sample whatever its numeric type
         w = {k: float(v) for k, v in w.items()}
+        b = {k: float(np.float32(v)) for k, v in w.items()}
         if w["time_min"] == w["time_max"]:
             tm = np.ones(len(self.t), bool)
         else:
-            tm = (self.t >= w["time_min"]) & (self.t <= w["time_max"])
+            tm = (self.t >= b["time_min"]) & (self.t <= b["time_max"])
         if w["lat_min"] == w["lat_max"] or w["lon_min"] == w["lon_max"]:
             sm = np.ones(len(self.la), bool)
         else:
-            sm = (self.la >= w["lat_min"]) & (self.la <= w["lat_max"]) & \
-                 (self.lo >= w["lon_min"]) & (self.lo <= w["lon_max"])
+            sm = (self.la >= b["lat_min"]) & (self.la <= b["lat_max"]) & \
+                 (self.lo >= b["lon_min"]) & (self.lo <= b["lon_max"])
         return tm, sm
 
     def view(self):
@@ -154,6 +161,10 @@ def gen_data(r, thorough, want_months):
     else:
         lat = r.integers(-360, 361, N) / 4.0
         lon = r.integers(-720, 1441, N) / 4.0
+        if r.random() < 0.4:
+            # station coordinates that single precision cannot represent
+            lat = r.integers(-9000, 9001, N) / 100.0
+            lon = r.integers(-18000, 36001, N) / 100.0
         if N > 2 and r.random() < 0.4:       # duplicate coordinates
             lat[-1], lon[-1] = lat[0], lon[0]
             lat[-2] = lat[1]
@@ -199,9 +210,24 @@ def pick_bounds(r, vals, ctx=None):
 def gen_window(r, m):
     w = {}
     kinds = {}
-    for ax, vals in (("time", m.t), ("lat", m.la), ("lon", m.lo)):
+    for ax, vals in (("time", m.user[0]), ("lat", m.user[1]),
+                     ("lon", m.user[2])):
         lo, hi, k = pick_bounds(r, vals)
-        w[ax + "_min"], w[ax + "_max"] = lo, hi
+        # the numeric type a caller may hold a bound in (a Python number,
+        # or an element / the min / max of a coordinate array)
+        ty = r.choice(["float", "float", "f8", "f8", "f4", "int"], 2)
+        out = []
+        for v, t in zip((lo, hi), ty):
+            if t == "f8":
+                v = np.float64(v)
+            elif t == "f4":
+                v = np.float32(v)
+            elif t == "int" and float(v).is_integer():
+                v = int(v)
+            out.append(v)
+        if (float(out[0]) == float(out[1])) != (lo == hi):
+            out = [lo, hi]          # (rounding must not create 'equal')
+        w[ax + "_min"], w[ax + "_max"] = out
         kinds[ax] = k
     return w, kinds
 
